@@ -546,7 +546,7 @@ def run_harness(ck, binp, n, extra, seed=None):
     return cases, None
 
 
-CANARY = "(check_merge_int (mkStat 1 2 3 4 5 6) (mkStat 0 9 1 1 1 1) (mkStat 1 2 3 4 5 6))"
+CANARY = "(check_merge_float (mkStat 1 2 3 4 5 6) (mkStat 0 9 1 1 1 1) (mkStat 1 2 3 4 5 7))"
 stats_canaries = [0]
 
 
@@ -691,6 +691,13 @@ def classify(ck, cases, codes, stats):
                     code |= 16      # stored statistics explained by no admissible variant of the builders / codec
         if c["k"] == "frame":
             code &= 15      # flag 16 (model of today's reader) only matters when a prefix was accepted
+        if c["k"] == "merge" and c["mg"]["kind"] == "int":
+            # either variant of the integer merge explains the result: today's (through float64) or the exact one
+            stats["merge_variant"] = stats.get("merge_variant", {})
+            v = "float64-routed" if not (code & 2) else "exact" if not (code & 4) else "none"
+            if code in (2, 4):
+                stats["merge_variant"][v] = stats["merge_variant"].get(v, 0) + 1
+            code = 0 if code in (0, 2, 4) else code
         if c["k"] == "preagg":
             ws = pa_mode_words(code, len(c["pa"]["modes"]))
             stats["pa_writer_choice_differs"] = stats.get("pa_writer_choice_differs", 0) + sum(1 for w in ws if w & 32)
@@ -796,5 +803,6 @@ def main(ck):
     ck.cov["shape_histogram"] = shapes
     ck.cov["known_finding_cases"] = stats["known"]
     ck.cov["evaluation_canaries_returned"] = stats_canaries[0]
+    ck.cov["integer_merge_variant_beyond_2^53"] = stats.get("merge_variant", {})
     ck.cov["preagg_writer_choice_differs_from_model_of_todays_writer"] = stats.get("pa_writer_choice_differs", 0)
     ck.cov["samples"] = [slim(c) for c in cases[3:6]]
